@@ -15,6 +15,16 @@ OUT = os.environ.get("SEED_OUT", "/tmp/out")
 TAG = os.environ.get("SEED_TAG", "")  # e.g. "r2" -> ids Cxx-r2mK
 SEEDED = "/verif/seeded"
 PY = "/venv/bin/python"
+# the checks run from a private snapshot of the checker sources, so that editing /verif/sa while a confirmation runs cannot leak half-edited modules into it
+SNAP = "/tmp/verif_snap_%d" % os.getpid()
+
+
+def snapshot():
+    shutil.rmtree(SNAP, ignore_errors=True)
+    os.makedirs(SNAP)
+    shutil.copytree("/verif/sa", SNAP + "/sa", ignore=shutil.ignore_patterns("__pycache__"))
+    for f in ("check.py", "known_findings.json", "properties.jsonl", "MANIFEST.json"):
+        shutil.copy("/verif/" + f, SNAP + "/" + f)
 ALL = [c["property_id"] for c in json.load(open("/verif/MANIFEST.json"))["checks"]]
 
 
@@ -45,7 +55,7 @@ def work(item):
         caught = {}
         e2 = dict(os.environ, VERIF_OUT_DIR="/tmp/verif_scratch_out/%s_%s" % (pid, mk))
         for p in ALL:
-            rc, out = sh("%s /verif/check.py %s --root %s" % (PY, p, wt), env=e2)
+            rc, out = sh("%s %s/check.py %s --root %s" % (PY, SNAP, p, wt), env=e2)
             if rc == 1:
                 rules = sorted({l.split("rule ")[1].split(" ")[0] for l in out.splitlines() if l.strip().startswith("rule ")})
                 caught[p] = rules
@@ -63,6 +73,7 @@ def work(item):
 
 
 def main():
+    snapshot()
     items = []
     only = sys.argv[1:]
     for pid in sorted(os.listdir(OUT)):
@@ -99,4 +110,7 @@ def main():
 
 
 if __name__ == "__main__":
-    main()
+    try:
+        main()
+    finally:
+        shutil.rmtree(SNAP, ignore_errors=True)
